@@ -28,4 +28,6 @@ CASES = [
      "edits": [("io/xir_io.py", "                        elif isinstance(p, str):\n", "                        elif isinstance(p, bytes):\n")]},
     {"id": "twin-xir-reader-excludes-strings-in-the-test", "expect": "silent",
      "edits": [("io/xir_io.py", "                        elif isinstance(p, Iterable):\n                            params.append(np.array(_listr(p)))", "                        elif isinstance(p, Iterable) and not isinstance(p, str):\n                            params.append(np.array(_listr(p)))")]},
+    {"id": "blackbird-writes-the-first-mode-only", "expect": "fire", "key": "C14.presence",
+     "edits": [("io/blackbird_io.py", "        op[\"modes\"] = [i.ind for i in cmd.reg]", "        op[\"modes\"] = [cmd.reg[0].ind]")]},
 ]
